@@ -83,8 +83,9 @@ def gen_type(rng, bases, depth):
     return ast, render(ast)
 
 
-def random_history(rng, steps):
+def random_history(rng, steps, resurrect=False):
     ops, refs, ffis, nref, nffi = [], {}, [], 0, 0
+    recipe = {}            # ref -> the backend operation that built it (to rebuild "the same type")
 
     def newref(kind):
         nonlocal nref
@@ -109,24 +110,58 @@ def random_history(rng, steps):
         elif r < 0.46:
             ops.append(["bprim", rng.choice(PRIMS), newref("prim")])
         elif r < 0.56 and refs:
-            ops.append(["bptr", rng.choice(sorted(refs)), newref("ptr")])
+            x = rng.choice(sorted(refs))
+            ops.append(["bptr", x, newref("ptr")])
+            recipe[ops[-1][-1]] = ops[-1]
         elif r < 0.62:
             cand = [x for x in sorted(refs) if refs[x] == "ptr"]
             if cand:
                 ops.append(["barr", rng.choice(cand), rng.choice([None, 1, 2, 3]), newref("arr")])
+                recipe[ops[-1][-1]] = ops[-1]
         elif r < 0.68:
             cand = [x for x in sorted(refs) if refs[x] in ("prim", "ptr")]
             if cand:
                 args = [rng.choice(cand) for _ in range(rng.randrange(0, 3))]
                 ops.append(["bfn", args, rng.choice(cand), False, newref("fn")])
+                recipe[ops[-1][-1]] = ops[-1]
         elif r < 0.74:
             cand = [x for x in sorted(refs) if refs[x] in ("ptr", "arr")]
             if cand:
                 ops.append(["item", rng.choice(cand), newref("?")])
         elif r < 0.90 and refs:
             x = rng.choice(sorted(refs))
-            del refs[x]
-            ops.append(["drop" if rng.random() < 0.7 else "cycdrop", x])
+            kind = refs.pop(x)
+            rr = rng.random()
+            if rr < 0.25:
+                # drop with a weakref callback that rebuilds the same type (if its parts are still held) and/or
+                # a type sharing a component, and keeps the results
+                inner = []
+                rc = recipe.get(x)
+                if rc is not None and rng.random() < 0.8:
+                    parts = [rc[1]] if rc[0] in ("bptr", "barr") else list(rc[1]) + [rc[2]]
+                    if all(p in refs for p in parts):
+                        inner.append(rc[:-1] + [newref(kind)])
+                        recipe[inner[-1][-1]] = inner[-1]
+                others = sorted(y for y in refs if y != x)
+                if others and rng.random() < 0.5:
+                    inner.append(["bptr", rng.choice(others), newref("ptr")])
+                    recipe[inner[-1][-1]] = inner[-1]
+                ops.append(["dropcb", x, inner])
+            elif rr < 0.40:
+                # into a garbage cycle with a finalizer that rebuilds the type / a related type while the
+                # collector has already cleared the weak references (and, in the dedicated histories,
+                # resurrects the old ctype)
+                inner = []
+                rc = recipe.get(x)
+                if rc is not None:
+                    parts = [rc[1]] if rc[0] in ("bptr", "barr") else list(rc[1]) + [rc[2]]
+                    if all(p in refs for p in parts):
+                        inner.append(rc[:-1] + [newref(kind)])
+                        recipe[inner[-1][-1]] = inner[-1]
+                res = resurrect and rng.random() < 0.7
+                ops.append(["cycfin", x, res, inner, newref(kind) if res else ""])
+            else:
+                ops.append(["drop" if rr < 0.8 else "cycdrop", x])
         elif r < 0.94 and len(ffis) > 1:
             f = ffis.pop(rng.randrange(len(ffis)))
             ops.append(["dropffi", f])
@@ -135,20 +170,43 @@ def random_history(rng, steps):
     return ops
 
 
+def resurrection_history(rng):
+    """a finalizer in a garbage cycle resurrects a collected ctype (and may rebuild its type first); the type
+    is then requested again"""
+    ops = [["bprim", rng.choice(PRIMS), "p"], ["bptr", "p", "q"]]
+    build = rng.choice([["bptr", "p"], ["bptr", "q"], ["barr", "q", rng.choice([None, 2, 5])],
+                        ["bfn", ["p", "q"], "p", False], ["bfn", [], "q", False]])
+    ops.append(build + ["x"])
+    if rng.random() < 0.5:
+        ops.append(build + ["x1"])
+        ops.append(["drop", "x1"])
+    inner = [build + ["y"]] if rng.random() < 0.6 else []
+    ops.append(["cycfin", "x", True, inner, "z"])
+    if rng.random() < 0.5:
+        ops.append(["bptr", "q", "w"])
+    ops.append(["gc"])
+    ops.append(build + ["v"])
+    if rng.random() < 0.5:
+        ops += [["drop", "z"], ["gc"], build + ["u"]]
+    return ops
+
+
 def ops_from_path(path):
     """a path of the explored graph (atomic collection) as direct backend requests; operands are the
-    model's object numbers"""
-    ops, n = [], 0
+    model's object numbers.  SDropCb .. SWinClose (a death by reference counting with the program's
+    requests made from a weakref callback, inside the dealloc) becomes one "dropcb" operation."""
+    ops, n, window = [], 0, None
     for act, a in path:
         n += 1
+        tgt = ops if window is None else window[2]
         if act == "ReqPrim":
-            ops.append(["bprim", "short" if a[0] == 0 else "long", "m%d" % n])
+            tgt.append(["bprim", "short" if a[0] == 0 else "long", "m%d" % n])
         elif act == "SReqPtr":
-            ops.append(["bptr", a[0], "m%d" % n])
+            tgt.append(["bptr", a[0], "m%d" % n])
         elif act == "SReqArr":
-            ops.append(["barr", a[0], 2, "m%d" % n])
+            tgt.append(["barr", a[0], 2, "m%d" % n])
         elif act == "SReqFn":
-            ops.append(["bfn", [a[1]], a[0], False, "m%d" % n])
+            tgt.append(["bfn", [a[1]], a[0], False, "m%d" % n])
         elif act == "SDropRef":
             ops.append(["drop", a[0]])
         elif act == "SCycDrop":
@@ -156,10 +214,19 @@ def ops_from_path(path):
         elif act == "SGcOne":
             if not ops or ops[-1] != ["gc"]:
                 ops.append(["gc"])
+        elif act == "SDropCb":
+            window = ["dropcb", a[0], []]
+        elif act == "SWinWr":
+            pass
+        elif act == "SWinClose":
+            ops.append(window)
+            window = None
         elif act == "SDeallocRC":
             pass                        # happens by itself (reference counting)
         else:
             raise core.MachineryError("unknown action %s in the UniqueCache graph" % act)
+    if window is not None:              # the path ends inside the window: close it
+        ops.append(window)
     return ops + [["dropall"], ["gc"]]
 
 
@@ -181,6 +248,23 @@ def run_worker(cfg, histories):
 def ideal_trace(events):
     return [{"op": e["op"], "s": e["s"], "d": e["d"], "req": e["req"], "agg": e["agg"]}
             for e in events if e["op"] != "skipped"]
+
+
+def involves_resurrected(events, pos):
+    """is the object of the failing obtain event, or its live twin of the same description, an object that a
+    finalizer resurrected after the collector had cleared its weak references?"""
+    evs = [e for e in events if e["op"] != "skipped"]
+    live, res = {}, set()
+    for e in evs[:pos - 1]:
+        if e["op"] == "obtain":
+            live[e["s"]] = e["d"]
+            if e.get("res"):
+                res.add(e["s"])
+        elif e["op"] == "dead":
+            live.pop(e["s"], None)
+    e = evs[pos - 1]
+    twins = {s for s, d in live.items() if d == e["d"]}
+    return bool(e.get("res")) or bool(twins & res)
 
 
 def impl_trace(events):
@@ -225,7 +309,7 @@ def design_level(ctx, quick):
         ctx.add_tlc(name, r)
 
     def variant(v):
-        r = core.tlc("UniqueCache", cfg_text=MC % (4, "c", v, "FALSE", "0", ""), workers=3, timeout=1500)
+        r = core.tlc("UniqueCache", cfg_text=MC % (4, "c", v, "TRUE" if v == "removealways" else "FALSE", "0", ""), workers=3, timeout=1500)
         ctx.add_tlc("sanity:" + v, r, require_ok=False, count_states=False)
         if r.ok or "RefinesIdeal is violated" not in r.out:
             raise core.MachineryError("broken variant %s of UniqueCache was not rejected by TLC:\n%s" % (v, r.out[-1500:]))
@@ -246,7 +330,8 @@ def design_level(ctx, quick):
                 lst.append((act, args, dst))
         out[nn] = lst
     acts = {e[0] for es in out.values() for e in es}
-    need = {"ReqPrim", "SReqPtr", "SReqArr", "SReqFn", "SDropRef", "SCycDrop", "SDeallocRC", "SGcOne"}
+    need = {"ReqPrim", "SReqPtr", "SReqArr", "SReqFn", "SDropRef", "SCycDrop", "SDeallocRC", "SGcOne", "SDropCb", "SWinWr",
+            "SWinClose"}
     if need - acts:
         raise core.MachineryError("UniqueCache: actions never taken: %s" % sorted(need - acts))
     for a in sorted(acts):
@@ -313,6 +398,10 @@ def run(ctx):
     nmodel = len(hist)
     for _ in range(150 if quick else 2000):
         hist.append(random_history(rng, rng.randrange(30, 120)))
+    nres0 = len(hist)
+    for _ in range(12 if quick else 200):          # finalizers that resurrect a collected ctype
+        hist.append(resurrection_history(rng) if rng.random() < 0.7 else
+                    random_history(rng, rng.randrange(30, 90), resurrect=True))
     ctx.cov["graph"] = {"transitions": nedges, "transitions_replayed": ncov}
     phase("generate")
     nw = 8
@@ -333,7 +422,10 @@ def run(ctx):
             raise core.MachineryError("C27 harness produced an impossible history at %d: %r" % (pos, traces[k][:pos][-3:]))
         e = ideal_trace(traces[k])[pos - 1]
         kind = e["d"].split(":")[0]
-        ctx.violation("%s:%s:%s" % (v, kind, "model-path" if k < nmodel else "random"), CLAUSE.get(v, v),
+        label = "model-path" if k < nmodel else "random"
+        if involves_resurrected(traces[k], pos):
+            label = "resurrected-ctype"
+        ctx.violation("%s:%s:%s" % (v, kind, label), CLAUSE.get(v, v),
                       {"ops": hist[k], "failing_event": e, "position": pos})
     divs = ["model path %d leaves the implementation model at event %d: %r" % (
         k, pos, impl_trace(traces[k])[pos - 1] if 0 < pos <= len(impl_trace(traces[k])) else None)
